@@ -9,7 +9,7 @@ func init() {
 			"exactly the coins added to the pay-out list are added to the gauge's distributed total, which is booked together with one filled epoch on every successful distribution; pay-outs are sent from the incentives module to the index-aligned receiver list; upcoming gauges become active at their start time before distribution.",
 		NotCovered:  []string{"sum over epochs ≤ deposit and module balance ≥ remainders over histories", "group gauges / volume splitting", "concentrated no-lock gauges' emission inside CL (C08)"},
 		Assumptions: []string{"bank SendCoinsFromModuleToManyAccounts pays inputs[i] to addrs[i]"},
-		MinObl:      24,
+		MinObl:      29,
 		Run:         runC09,
 	})
 }
@@ -53,4 +53,12 @@ func runC09(c *rules.Ctx) {
 	c.OnlyWhen(H, "incentiveskeeper.Keeper.Distribute", "eq(epochIdentifier, incentiveskeeper.Keeper.GetParams(k,ctx).DistrEpochIdentifier)", "distribution runs only on the configured epoch")
 	const CF = K + "checkFinishDistribution"
 	c.OnlyWhen(CF, "incentiveskeeper.Keeper.moveActiveGaugeToFinishedGauge", "not(elem(gauges).IsPerpetual) & le(elem(gauges).NumEpochsPaidOver, add(elem(gauges).FilledEpochs,1))", "only non-perpetual gauges whose last paying epoch was just filled are finished")
+	// ---- every qualifying lock and every coin of the gauge is visited
+	c.LoopOnlyFailExits(K+"distributeInternal", "the loops over locks and over the gauge's coins are left early only by failing (a skipped amount never drops the remaining coins or locks)")
+	// ---- the per-denom lock cache is gauge-independent, the gauge's own duration filters afterwards
+	const GD = K + "getDistributeToBaseLocks"
+	c.CallArg(GD, "incentiveskeeper.Keeper.getLocksToDistributionWithMaxDuration", 3, "1000000", "the cache shared by all gauges of a denom is filled from the minimal duration (1ms), never from one gauge's duration")
+	c.CallArg(GD, "incentiveskeeper.FilterLocksByMinDuration", 1, "gauge.DistributeTo.Duration", "each gauge then keeps the locks of at least its own duration")
+	c.CallArg(GD, "incentiveskeeper.FilterLocksByMinDuration", 0, "lookup(cache, lockuptypes.NativeDenom(gauge.DistributeTo.Denom))", "…out of the cached locks of its own denom")
+	c.MapKeys(GD, "lockuptypes.NativeDenom(gauge.DistributeTo.Denom)", 2, "the cache is keyed by the gauge's native denom")
 }
